@@ -11,6 +11,16 @@ claimed = {
   text="Generated-input search (rapid, shrinking) against explicit oracles, injected into the real packages at check time: quote/split round trip for shellparse.Parse and SplitPkgConfigFlags (also through clang flag merging and ExpandEnvToArgs with a fake pkg-config), go/build/constraint as reference for CheckTags, substitution oracles for $VAR/$(cmd)/{key} templates and -X parsing. Exploration only: absence of a counterexample in 3e5 (quick) / 1e7 (thorough) generated cases.",
   note="Trusts go/build/constraint and the quoter written from the documented rules; single -tags flag per command line; pkg-config values without leading '-', trailing blank/backslash or '$'.",
   design="§3 C17"),
+ "C18": dict(
+  technique="property-based testing (rapid): differential against an independent resolver over the raw JSON; fault inputs (cycles, missing parents) observed in a helper process",
+  text="Every shipped target file plus rapid-generated inheritance forests (diamonds, depth<=5, every Config field by reflection) are resolved by the real loader (fresh, warm, repeated, LoadAll, random order) and compared field by field with an independent fold over the raw JSON; ill-formed forests must yield an error, observed in a child process because unbounded recursion is a fatal crash. Exploration: the shipped files are covered completely, forests are sampled.",
+  note="The oracle encodes the documented merge rule (non-empty overrides, lists append); explicit zero values are outside the domain; helper process uses a 32 MiB stack limit to make runaway recursion fail fast.",
+  design="§3 C18"),
+ "C20": dict(
+  technique="property-based testing (rapid): generated hostile/well-formed archives, filesystem-snapshot confinement invariant + byte-for-byte fidelity oracle; concurrent requests against a local server",
+  text="rapid-generated archives in tar.gz/tar.xz/zip with hostile names, links, duplicates and clashes are extracted by the real functions into root/dest; a before/after snapshot of the whole root decides confinement, escaping entries must produce an error, well-formed archives must be reproduced exactly, duplicates must not mix contents; 2-4 concurrent checkDownloadAndExtractLib calls against a local httptest server must all succeed and leave one complete copy without residue. Exploration only.",
+  note="tar.xz goes through the system GNU tar; OS scheduling of the concurrent requests is not controlled (only staggering and server delays are drawn); a hostile concurrent filesystem is out of scope.",
+  design="§3 C20"),
 }
 not_yet = "check not built yet in this session (see DESIGN.md §3 for the planned generated-input check)"
 
